@@ -11,7 +11,7 @@ S="$(mktemp -d "$base/verif.XXXXXX")"
 trap 'rm -rf "$S"' EXIT
 [ -x "$VERIF/bin/vinstr" ] || (cd "$VERIF/engine/vinstr" && go build -o "$VERIF/bin/vinstr" .) || { echo "BUILD-ERROR vinstr"; exit 2; }
 "$VERIF/bin/vinstr" -src "$REPO" -dst "$S" || { echo "BUILD-ERROR instrumentation failed"; exit 2; }
-cp -r "$VERIF/engine/zverif" "$S/zverif"
+cp -r "${VERIF_ENGINE:-$VERIF/engine/zverif}" "$S/zverif"
 (cd "$S" && go build -o "$S/vcheck" ./zverif/cmd/vcheck) 2> "$S/build.log" || { echo "BUILD-ERROR (instrumented build failed)"; head -50 "$S/build.log"; exit 2; }
 EXTRA=()
 if [ "$ID" = "C13" ]; then
